@@ -116,7 +116,10 @@ class Engine(EngineBase):
             pi = rng.randrange(2) if P != "C02" else 0
             if k == "open":
                 sp = small_sp(rng) if P != "C02" else gen_sp(rng, "abcd", 2)
-                ops.append([k, pi, sp, rng.random() < 0.5])
+                o = [k, pi, sp, rng.random() < 0.5]
+                if P == "C02" and rng.random() < 0.4:
+                    o.append(rng.choice(["tuples", "reversed", "synced"]))
+                ops.append(o)
             elif k == "open_id":
                 ops.append([k, pi, h, rng.choice([32, 32, 32, "min", "min+1"])])
             elif k in ("init", "clear", "reset", "remove", "move", "clone", "drop", "copy", "deepcopy",
@@ -322,9 +325,13 @@ class Run:
 
     # ---- operations --------------------------------------------------
     def op_open(self, op):
-        _, pi, sp, mutate = op
-        caller = copy.deepcopy(sp)
-        exc, seg = self.call(lambda: self._open(pi, caller))
+        _, pi, sp, mutate = op[:4]
+        spelling = op[4] if len(op) > 4 else "dict"
+        caller = self.spell(copy.deepcopy(sp), spelling, pi)
+        if spelling != "dict":
+            mutate = False
+            self.probe("open_spelling_" + spelling)
+        exc, seg = self.call(lambda: self._open(pi, caller, sp))
         self.expect(exc, None, op, "C02")
         hd = self.handles[-1]
         muts = [e for e in seg if e[2] in MUTATING]
@@ -346,10 +353,34 @@ class Run:
             hd.loaded = True
             self.probe("caller_mutated")
 
-    def _open(self, pi, sp):
-        job = self.projects[pi].open_job(sp)
-        hd = H(job, pi, sp, self.new_group(), "by_sp")
+    def _open(self, pi, caller, sp=None):
+        job = self.projects[pi].open_job(caller)
+        hd = H(job, pi, sp if sp is not None else caller, self.new_group(), "by_sp")
         self.handles.append(hd)
+
+    def spell(self, sp, how, pi):
+        """Other container spellings of the same JSON value (C02: the id and the stored state point must
+        be the same for all of them)."""
+        if how == "dict":
+            return sp
+        if how == "tuples":
+            def t(v):
+                if isinstance(v, list):
+                    return tuple(t(x) for x in v)
+                if isinstance(v, dict):
+                    return {k: t(x) for k, x in v.items()}
+                return v
+            return t(sp)
+        if how == "reversed":
+            from collections import OrderedDict
+            return OrderedDict(reversed(list(sp.items())))
+        if how == "synced":
+            # the live state point object of another (uninitialised) handle, as in open_job(other.sp)
+            return self.projects[pi].open_job(copy.deepcopy(sp)).statepoint
+        if how == "attrdict":
+            from synced_collections.backends.collection_json import JSONAttrDict
+            return JSONAttrDict(data=copy.deepcopy(sp))
+        return sp
 
     def op_open_id(self, op):
         _, pi, jsel, plen = op
